@@ -140,10 +140,10 @@ theorem self_mem_path {s : Node} {key : List Nib} (hw : WF s) (hv : s.isValue = 
     | full c => simp [path]
 
 /-- the walk over any node list that contains the current node and every hashed node of `Prove`'s path -/
-theorem verify_complete_aux (H : Bytes → Bytes) (Hinj : Function.Injective H) (decode : Bytes → Option CNode)
+theorem verify_complete_aux (H : Bytes → Bytes) (Hinj : Function.Injective H) (decode : Bytes → Dec CNode)
     (nodes : List Bytes) :
     ∀ (fuel : Nat) (s : Node) (key : List Nib), WF s → s.isValue = false → KeyAt false key → key.length < fuel →
-      (∀ t ∈ path s key, WF t → decode (enc H t) = some (collapse H t)) →
+      (∀ t ∈ path s key, WF t → decode (enc H t) = .ok (collapse H t)) →
       enc H s ∈ nodes → (∀ t ∈ path s key, 32 ≤ (enc H t).length → enc H t ∈ nodes) →
       verify H decode (dbOf H nodes) fuel (H (enc H s)) key =
         (match Model.Trie.get s key with | some x => VRes.value x | none => VRes.absent)
@@ -165,10 +165,10 @@ theorem verify_complete_aux (H : Bytes → Bytes) (Hinj : Function.Injective H) 
         (fun t ht => hdec t (hsub t ht)) (hall s' hs' h32) (fun t ht h => hall t (hsub t ht) h)
 
 /-- `verify_sound` with the decoder hypothesis restricted to the honest nodes on the way to `key` -/
-theorem verify_sound2 (H : Bytes → Bytes) (Hinj : Function.Injective H) (decode : Bytes → Option CNode)
+theorem verify_sound2 (H : Bytes → Bytes) (Hinj : Function.Injective H) (decode : Bytes → Dec CNode)
     (db : Bytes → Option Bytes) (hdb : ∀ h b, db h = some b → H b = h) :
     ∀ (fuel : Nat) (s : Node) (key : List Nib), WF s → s.isValue = false → KeyAt false key →
-      (∀ t ∈ path s key, WF t → decode (enc H t) = some (collapse H t)) →
+      (∀ t ∈ path s key, WF t → decode (enc H t) = .ok (collapse H t)) →
       (∀ x, verify H decode db fuel (H (enc H s)) key = .value x → Model.Trie.get s key = some x) ∧
       (verify H decode db fuel (H (enc H s)) key = .absent → Model.Trie.get s key = none) ∧
       verify H decode db fuel (H (enc H s)) key ≠ .panic
